@@ -491,6 +491,30 @@ func runC08(c *core.Ctx, o Options) {
 	w.checkSettingsFixedAfterArming("W3")
 	w.checkAcceptorArms("W3")
 	c.Explanation += " W3 also: on no path of any entry point is Session.LogonSettings (or a field of it) assigned after the timers have been armed on that path (start() called or the logon event triggered): the interval the session reports is the interval it heartbeats with."
+	// W1 (premise): retransmissions pass the outgoing handlers too — SendBatch hands every element to DefaultHandler.send
+	checkBatchDelivery(c, "W1")
+	// W2 (premise): the heartbeat goroutine can send at all — no function of the session returns with Session.mu (or any other
+	// mutex it took) still locked
+	for _, fn := range w.s.allFuncs() {
+		takes := false
+		an.AllInstrs(fn, func(in ssa.Instruction) {
+			if cc := an.CallOf(in); cc != nil {
+				if _, op, ok := an.LockOp(cc); ok && (op == "Lock" || op == "RLock") {
+					takes = true
+				}
+			}
+		})
+		if !takes {
+			continue
+		}
+		held := an.HeldAtReturn(fn)
+		bad := ""
+		for _, k := range an.SortedKeys(held) {
+			bad = fmt.Sprintf("%s returns with %s still locked under [%s]: the next sender — the heartbeat goroutine included — blocks for ever", an.NameOf(fn), k, held[k])
+		}
+		c.Check(bad == "", "W2", an.NameOf(fn), "every mutex taken is released on every return", fn.Pos(), "balanced", bad)
+	}
+	c.Explanation += " W1 premise: SendBatch hands every element to DefaultHandler.send (retransmissions pass the refreshing handler too). W2 premise: no function of package session returns with a mutex it took still locked."
 	c.RuleMin = map[string]int{"W1": 8, "W2": 4, "W3": 1, "W4": 5}
 	c.MinObl = 10
 }
@@ -707,6 +731,9 @@ func runC09(c *core.Ctx, o Options) {
 	checkPoolGrowOnly(c, "X1")
 	w.checkTimerClosers("X3")
 	w.checkStartAlwaysArms("X2")
+	// X4 (premise): the session's own disconnect subscriber (cancel + Router.Stop) runs: subscribers run in registration order
+	checkEventPoolOrder(c, "X4")
+	c.Explanation += " X4 premise: event subscribers run in registration order (utils.EventHandlerPool appends; Trigger walks front to back)."
 	c.RuleMin = map[string]int{"M1": 3, "W4": 5, "X1": 9, "X2": 1, "X3": 4, "X4": 6}
 	c.MinObl = 14
 }
@@ -1105,7 +1132,6 @@ func (w *wiring) checkAcceptorArms(rule string) {
 	}
 	c.Check(bad == "" && n > 0, rule, "inbound:Logon", "the acceptor's Logon handler arms the timers itself", lf.Pos(), fmt.Sprintf("%d approving path(s) call start()", n), bad)
 }
-
 
 // periodTolerance reads a timer period as a linear form over the negotiated interval: period = time.Second × (H + T). It
 // returns T rendered ("0", "1", an expression) or a reason why the period is not of that form. Helpers that compute the period
